@@ -18,7 +18,7 @@ PLAN = dict(
           "title case, no '+', '-' or nothing for '_', doubled) - none may map to an entry; "
           "Metadata::is_valid over all 8 empty/non-empty combinations of comment/contents/desc. "
           "Non-trivial = a tree with an incomplete directory or a complete one with >= 2 dashes, the table "
-          "case, every is_valid case; distinct by 64-bit fingerprint of names/masks or texts. Later additions: count / last / nth / skip / step_by / size_hint of fresh iterators agree with the N packages; one database with tens of thousands of plain files and hundreds of incomplete directories; directory names that mean something to other tools (listing and pkgname compared also for names without '-'); several versions of one package with equal-valued versions. Round 7: symbolic links (dangling, looping, to a file), empty and incomplete directories and names that are not UTF-8 in the database directory and inside package directories; a complete directory with a non-UTF-8 name may yield one error item, the iteration must go on. Round 8: an optional metadata file as a symbolic link into /proc (content, size 0): the entry is what reading the link to its end returns. Round 9: the same tree opened through other routes the system resolves to the database directory (trailing separator, '.' components, '<package dir>/..', links with absolute and relative targets, '<link into the database>/..') must list what the plain path lists."),
+          "case, every is_valid case; distinct by 64-bit fingerprint of names/masks or texts. Later additions: count / last / nth / skip / step_by / size_hint of fresh iterators agree with the N packages; one database with tens of thousands of plain files and hundreds of incomplete directories; directory names that mean something to other tools (listing and pkgname compared also for names without '-'); several versions of one package with equal-valued versions. Round 7: symbolic links (dangling, looping, to a file), empty and incomplete directories and names that are not UTF-8 in the database directory and inside package directories; a complete directory with a non-UTF-8 name may yield one error item, the iteration must go on. Round 8: an optional metadata file as a symbolic link into /proc (content, size 0): the entry is what reading the link to its end returns. Round 9: the same tree opened through other routes the system resolves to the database directory (trailing separator, '.' components, '<package dir>/..', links with absolute and relative targets, '<link into the database>/..') must list what the plain path lists. Round 10: optional metadata files that are not UTF-8 (text ending inside a multi-byte character, a stray 0xFF): an error or the lossy decoding of the whole file, never a part of it."),
     assumptions=[
         "ground truth is what the harness wrote to its scratch directory; the file system returns it unchanged",
         "the 14 file names in harness/src/oracle/misc.rs are the pkg_install names",
